@@ -499,7 +499,16 @@ func (n *Node) run(side int, shard uint32, c Call, msg *Message, snd, dst *world
 	w.Log = w.Log[:0]
 	w.Logging = true
 	w.CurFunc = c.Func
-	sh.BeginLeg()
+	{
+		var owned []*world.Account
+		if snd != nil {
+			owned = append(owned, snd)
+		}
+		if dst != nil {
+			owned = append(owned, dst)
+		}
+		sh.BeginLeg(owned...)
+	}
 	var a0 uint64
 	if n.MeasureAlloc {
 		a0 = heapAllocs()
